@@ -888,13 +888,23 @@ class Fn:
             return build(k)
         v = s.fresh(hint and base or base)
         may_ret = node is not None and s.returns(node) != "never"
+        # the join carries the branch's VALUE only: a branch that falls through after updating a variable that lives on after the
+        # join (an in/out slice parameter, a string being built, a rebound local) would lose the update, so it is refused
+        snap = dict(s.sub)
+        watched = set(snap) | set(s.outs)
+        def fall(a, t, wrap):
+            lost = sorted(n for n in watched if s.sub.get(n, n) != snap.get(n, n))
+            if lost:
+                raise Unsupported("a branch updates %s and falls through to code after the join" % ", ".join(lost))
+            s._jt[0] = t
+            return Ret(wrap % paren(a) if wrap else a)
         if not may_ret:
-            body = build(K(lambda a, t: (s._jt.__setitem__(0, t), Ret(a))[1], cheap=True))
+            body = build(K(lambda a, t: fall(a, t, None), cheap=True))
             return Bind(v, body, k(v, s._jt[0]))
         saved = (s.ret_mode, s.maybe_vars, s.in_valjoin, s.loop_depth)
         s.ret_mode, s.maybe_vars, s.in_valjoin, s.loop_depth = "pre", (), True, 0
         try:
-            body = build(K(lambda a, t: (s._jt.__setitem__(0, t), Ret("inr %s" % paren(a)))[1], cheap=True))
+            body = build(K(lambda a, t: fall(a, t, "inr %s"), cheap=True))
         finally:
             s.ret_mode, s.maybe_vars, s.in_valjoin, s.loop_depth = saved
         r, x = s.fresh("r"), s.fresh("x")
@@ -967,6 +977,24 @@ class Fn:
             return "tt"
         return s.pat_text(p, ty)
 
+    def match_bool(s, a, arms, kb):
+        """match on a bool: `true` / `false` literal arms (no guards), or a catch-all, tried in order"""
+        def pick(val):
+            for arm in arms:
+                p = arm["pat"]
+                if arm["guard"]:
+                    raise Unsupported("guard in a match on bool")
+                if p["k"] == "Lit" and p["lit"]["k"] == "Bool":
+                    if p["lit"]["value"] == val:
+                        return arm
+                elif p["k"] == "Wild":
+                    return arm
+                else:
+                    raise Unsupported("bool pattern " + p["k"])
+            raise Unsupported("non-exhaustive match on bool")
+        at, af = pick(True), pick(False)
+        return If(a, s.scoped(lambda: s.expr(at["body"], kb)), s.scoped(lambda: s.expr(af["body"], kb)))
+
     def match_int(s, a, arms, kb):
         """match on an unsigned integer: literal arms (with optional guards) tried in order, then the catch-all"""
         def chain(i):
@@ -998,6 +1026,8 @@ class Fn:
             raise Unsupported("match on a value of unknown type")
         if t in ("usize", "u64", "u8", "int"):
             return s.match_int(a, arms, kb)
+        if t == "bool":
+            return s.match_bool(a, arms, kb)
         if t[0] in ("opt", "res") and not any(arm["guard"] for arm in arms) and all(s.structural(arm["pat"]) for arm in arms) \
                 and any(s.depth(arm["pat"]) >= 2 for arm in arms):
             out = []
@@ -1496,6 +1526,18 @@ def lib_or_else(s, a, t, al, k, hint):
     return s.join(k, build, hint, "m", node=c["body"])
 
 
+def lib_bool_then(s, a, t, al, k, hint):
+    """cond.then(|| e): Some(e) when cond (e evaluated only then), else None"""
+    c = al[0]
+    if not (c["k"] == "Closure" and not c["inputs"]):
+        raise Unsupported("bool::then with this closure")
+    def build(kb):
+        def some():
+            return s.expr(c["body"], K(lambda v, tv: kb("Some %s" % paren(v), ("opt", tv))))
+        return If(a, s.scoped(some), kb("None", ("opt", None)))
+    return s.join(k, build, hint, "m", node=c["body"])
+
+
 def lib_result_map(s, a, t, al, k, hint):
     c = al[0]
     if c["k"] == "Closure" and len(c["inputs"]) == 1 and c["inputs"][0]["k"] == "Wild" and c["body"]["k"] == "Tuple" and not c["body"]["elems"]:
@@ -1586,6 +1628,7 @@ LIB = {
     ("opt", "map"): lib_opt_map,
     ("opt", "ok_or"): lib_ok_or,
     ("opt", "or_else"): lib_or_else,
+    ("bool", "then"): lib_bool_then,
 }
 
 
@@ -1598,6 +1641,15 @@ def call_io_error_new(s, al, k, hint):
     if kind["k"] == "Path" and kind["path"][-2:-1] == ["ErrorKind"]:
         return k(kind["path"][-1], ("err", "io"))
     raise Unsupported("io::Error::new with a computed kind")
+
+
+def call_io_error_from(s, al, k, hint):
+    """std::io::Error::from(e): the From conversion `?` would apply (identity on io::Error)"""
+    def with_e(e, te):
+        if te == ("err", "io"):
+            return k(e, te)
+        return k(s.tr.err_conv(te, ("err", "io"), e), ("err", "io"))
+    return s.expr(al[0], K(with_e))
 
 
 def call_async_read(s, al, k, hint):
@@ -1633,6 +1685,7 @@ CALLS = {
     "tokio::io::AsyncReadExt::read": call_async_read,
     "core::cmp::min": call_min, "std::cmp::min": call_min,
     "std::io::Error::new": call_io_error_new, "io::Error::new": call_io_error_new,
+    "std::io::Error::from": call_io_error_from, "io::Error::from": call_io_error_from,
 }
 
 
